@@ -27,10 +27,11 @@ const (
 	HNewCPQ
 	HNewTarget // a long-lived distance target object, reused by later EdgeQuery calls
 	HSetOpts   // the caller changes the options of a live EdgeQuery through the options object it kept
+	HNewRegion // a long-lived ShapeIndexRegion (holds a query and an iterator of its own)
 	NumHKinds
 )
 
-var hNames = [...]string{"Query", "Add", "Build", "Reset", "Invert", "Normalize", "EncodeDecode", "NewEdgeQuery", "NewCrossingEdgeQuery", "NewContainsPointQuery", "NewTarget", "SetOptions"}
+var hNames = [...]string{"Query", "Add", "Build", "Reset", "Invert", "Normalize", "EncodeDecode", "NewEdgeQuery", "NewCrossingEdgeQuery", "NewContainsPointQuery", "NewTarget", "SetOptions", "NewRegion"}
 
 // mutation kinds recorded for loops/polygons
 const (
@@ -53,6 +54,7 @@ type HStep struct {
 	curVerts  []s2.Point
 	curLoops  [][]s2.Point
 	haveLoops bool
+	SameObj   bool   // HAdd: add the very shape object that was in the index before the last Reset
 	AltEQ     EQOpts // the options the reused query was created with, when they were changed since
 	HasAlt    bool
 	subjCells []uint64
@@ -106,6 +108,8 @@ type symQ struct {
 	eqOpt0 []EQOpts // options at creation
 	tgtOp  []Op     // template: TK, P, Q, Cell, Obj2, EQ.Furthest
 	tgtOK  []bool
+	regObj []int
+	regOK  []bool
 }
 
 func cloneInts(a []int) []int { return append([]int(nil), a...) }
@@ -134,6 +138,8 @@ func drawHistory(g *gen.G, descs []*ObjDesc, maxSteps int) []HStep {
 					forceFocus = sq.ceqOK[focusID]
 				case HNewCPQ:
 					forceFocus = sq.cpqOK[focusID]
+				case HNewRegion:
+					forceFocus = sq.regOK[focusID]
 				}
 				if forceFocus {
 					obj = focusObj
@@ -197,9 +203,31 @@ func drawHistory(g *gen.G, descs []*ObjDesc, maxSteps int) []HStep {
 		case HBuild:
 			if d.Kind == OIndex {
 				sq.resume(obj)
+				// the interesting moment for an iterator-holding query is right after the rebuild
+				var fams, ids []int
+				for i := range sq.cpqObj {
+					if sq.cpqObj[i] == obj {
+						fams, ids = append(fams, HNewCPQ), append(ids, i)
+					}
+				}
+				for i := range sq.ceqObj {
+					if sq.ceqObj[i] == obj {
+						fams, ids = append(fams, HNewCEQ), append(ids, i)
+					}
+				}
+				for i := range sq.regObj {
+					if sq.regObj[i] == obj {
+						fams, ids = append(fams, HNewRegion), append(ids, i)
+					}
+				}
+				if len(ids) > 0 && t.Chance(700) {
+					k := int(t.Uint(uint32(len(ids))))
+					focusFam, focusID, focusObj, focusLeft = fams[k], ids[k], obj, 1+int(t.Uint(4))
+				}
 			}
 		case HAdd:
 			h.Shape = sy.next % len(d.Shapes)
+			h.SameObj = t.Chance(650)
 			sy.next++
 			sy.live = append(sy.live, h.Shape)
 			sq.invalidate(obj)
@@ -255,6 +283,13 @@ func drawHistory(g *gen.G, descs []*ObjDesc, maxSteps int) []HStep {
 			sq.ceqOK = append(sq.ceqOK, true)
 			focusFam, focusID, focusObj, focusLeft = HNewCEQ, len(sq.ceqObj)-1, obj, 2+int(t.Uint(5))
 		case HNewCPQ:
+			if t.Chance(400) {
+				h.Kind = HNewRegion
+				sq.regObj = append(sq.regObj, obj)
+				sq.regOK = append(sq.regOK, true)
+				focusFam, focusID, focusObj, focusLeft = HNewRegion, len(sq.regObj)-1, obj, 1+int(t.Uint(3))
+				break
+			}
 			h.Model = s2.VertexModel(t.Uint(3))
 			sq.cpqObj = append(sq.cpqObj, obj)
 			sq.cpqMod = append(sq.cpqMod, h.Model)
@@ -280,8 +315,10 @@ func drawHistory(g *gen.G, descs []*ObjDesc, maxSteps int) []HStep {
 				case HNewCEQ:
 					q.Kind = []int{QCrossings, QCrossingsMap}[t.Uint(2)]
 				case HNewCPQ:
-					q.Kind = []int{QContainsPoint, QContainingShapes, QShapeContains}[t.Uint(3)]
+					q.Kind = []int{QShapeContains, QContainsPoint, QContainingShapes, QShapeContains}[t.Uint(4)]
 					q.Model = sq.cpqMod[focusID]
+				case HNewRegion:
+					q.Kind = QRegionBound
 				}
 				q.Reuse = focusID
 			}
@@ -315,6 +352,10 @@ func drawHistory(g *gen.G, descs []*ObjDesc, maxSteps int) []HStep {
 							q.Reuse = r
 							q.Model = sq.cpqMod[r]
 						}
+					case QRegionBound:
+						if r := pickOK(t, sq.regObj, sq.regOK, q.Obj); r >= 0 {
+							q.Reuse = r
+						}
 					}
 				}
 				if q.Kind == QFindEdges || q.Kind == QDistance || q.Kind == QIsDistLess || q.Kind == QIsConsDist {
@@ -339,7 +380,11 @@ func drawHistory(g *gen.G, descs []*ObjDesc, maxSteps int) []HStep {
 			if od.Kind == OIndex {
 				// ask about an earlier edge / point / cell of this object again: per-query caches
 				// keyed by their arguments only show up when arguments repeat
-				if prev := lastArgs[q.Obj]; len(prev) > 0 && q.ReuseT == 0 && t.Chance(300) {
+				recycle := uint32(300)
+				if forceFocus {
+					recycle = 550
+				}
+				if prev := lastArgs[q.Obj]; len(prev) > 0 && q.ReuseT == 0 && t.Chance(recycle) {
 					pa := prev[int(t.Uint(uint32(len(prev))))]
 					q.P, q.Q, q.Cell = pa.P, pa.Q, pa.Cell
 				}
@@ -379,6 +424,11 @@ func (sq *symQ) invalidate(obj int) {
 			sq.cpqOK[i] = false
 		}
 	}
+	for i := range sq.regObj {
+		if sq.regObj[i] == obj {
+			sq.regOK[i] = false
+		}
+	}
 	// a ShapeIndex target keeps a private query on its index and has no reset: it is not used
 	// again once that index changed
 	for i := range sq.tgtOp {
@@ -399,6 +449,11 @@ func (sq *symQ) resume(obj int) {
 	for i := range sq.cpqObj {
 		if sq.cpqObj[i] == obj {
 			sq.cpqOK[i] = true
+		}
+	}
+	for i := range sq.regObj {
+		if sq.regObj[i] == obj {
+			sq.regOK[i] = true
 		}
 	}
 }
@@ -569,7 +624,7 @@ func runC13(rc *runCtx) *RunResult {
 			o := world[h.Obj]
 			switch h.Kind {
 			case HAdd:
-				o.addShape(h.Shape)
+				o.addShapeReusing(h.Shape, h.SameObj)
 				for r := range qs.EQ {
 					if qs.EQObj[r] == h.Obj {
 						qs.EQ[r].Reset()
@@ -580,8 +635,7 @@ func runC13(rc *runCtx) *RunResult {
 					ix.Build()
 				}
 			case HReset:
-				o.Index.Reset()
-				o.Shapes = nil
+				o.resetIndex()
 				for r := range qs.EQ {
 					if qs.EQObj[r] == h.Obj {
 						qs.EQ[r].Reset()
@@ -602,6 +656,8 @@ func runC13(rc *runCtx) *RunResult {
 			case HSetOpts:
 				h.EQ.apply(qs.EQO[h.Shape])
 				qs.EQOpt[h.Shape] = h.EQ
+			case HNewRegion:
+				qs.Reg = append(qs.Reg, o.Index.Region())
 			case HNewTarget:
 				qs.Tgt = append(qs.Tgt, targetCalls(&h.Q, world, true))
 			case HNewCEQ:
